@@ -26,7 +26,7 @@ from . import follow, features
 LEVEL = "model_checking"
 RULE = (
     "BFS to closure on the sync engine of every TREE(N) universal machine, FOLLOW machine and FEATURE machine "
-    "(assign/raise/choose/pure/enqueueActions/guards/output/sync services); every step is replayed on the "
+    "(assign/raise/choose/pure/enqueueActions/guards/output/sync services; self-enqueueing pure / choose / enqueueActions expansion of natural depth 3 and unbounded - cut by the expansion-depth guard); every step is replayed on the "
     "async engine and through initial_transition/transition and compared (configuration, context, status, "
     "output, ordered action list with triggering event type+payload); distinct_nontrivial = distinct canonical "
     "joint states"
